@@ -227,6 +227,17 @@ func (s *Sess) New(chunks [][]byte, fin string) NewRes {
 			// ... and an option that adds nothing (a deployment whose second key file is empty)
 			opts = append(opts, ech.WithKeys(nil))
 		}
+		// debugging as deployments configure it: not at all, with a function that formats what it is
+		// given (log.Printf, t.Logf), or with the zero value of an optional setting. Logging observes; it
+		// does not change what the connection does.
+		if len(chunks) > 0 {
+			switch (len(chunks[0]) + len(s.Keys)) % 4 {
+			case 1:
+				opts = append(opts, ech.WithDebug(func(format string, args ...any) { DebugSink = len(fmt.Sprintf(format, args...)) }))
+			case 2:
+				opts = append(opts, ech.WithDebug(nil))
+			}
+		}
 		c, err := ech.NewConn(context.Background(), s.Fake, opts...)
 		s.Conn = c
 		res.Err = ErrClass(err)
@@ -247,10 +258,20 @@ func (s *Sess) New(chunks [][]byte, fin string) NewRes {
 	return res
 }
 
+// DebugSink keeps the formatting debug function from being optimised away.
+var DebugSink int
+
 // Names compares what the Conn reports about the client's hello at this point of its life.
 func (s *Sess) Names() {
 	if s.Conn == nil {
 		return
+	}
+	// a caller that filters or sorts the list it was given (its own copy) and asks again later
+	if got := s.Conn.ALPNProtos(); len(got) > 0 {
+		for i := range got {
+			got[i] = "edited-by-the-caller"
+		}
+		_ = append(got[:0], "x")
 	}
 	s.m("names", fmt.Sprintf("sni=%s alpn=%s", core.Hex([]byte(s.Conn.ServerName())), core.StrHexList(s.Conn.ALPNProtos())), "Conn.ServerName / Conn.ALPNProtos")
 }
